@@ -3,6 +3,9 @@
 //! `<request S-expression>\t<implementation result>`.
 mod rng;
 mod graphs;
+mod gen;
+mod progrun;
+mod streams;
 
 use std::io::Write;
 
@@ -35,6 +38,7 @@ fn main() {
             graphs::exhaustive_slice(count as u32, lo, hi, &mut emit);
         }
         "graph-random" => graphs::random(&mut rng, count, &mut emit),
+        "expr" => streams::expr(&mut rng, count, &mut emit),
         _ => { eprintln!("unknown stream {}", stream); std::process::exit(2); }
     }
 }
